@@ -119,6 +119,9 @@ def run(ctx):
     for i in v["noted"]:
         rec = recs[i - 1]
         ctx.violation("C18:result:%s:%s" % (rec["kind"], rec["scenario"]), "inconsistent result under concurrency: %s" % rec["notes"][:3], slim(rec))
+    # the operation table under free-running concurrent use, validated step by step against OpTracker.tla
+    from props import optrace
+    optrace.run(ctx)
 
 
 def slim(rec):
